@@ -1,7 +1,7 @@
 """C07 - load balancing: one branch per frame, ordered duplicate-free rejoin (E1, profile ANY)."""
 
 from mc import explore
-from . import topo
+from . import topo, e2part
 
 BASES = ['fifo', 'asc', 'desc', 'lifo']
 
@@ -24,6 +24,8 @@ def run(rep):
 
     if not quick:
         explore.explore(rep, 'core-d2', [s for s in fam if s['name'].startswith('bal2/')][:6], 2, ['fifo'], 'checks.oracles:oracle_c07', budget_s=1500)
+
+    e2part.run_e2(rep, 'C07')
 
     rep.set('traces_validated_against_impl', rep.coverage.get('evaluations', 0))
     rep.set('distinct_nontrivial', rep.coverage.get('distinct_outcomes', 0))
